@@ -221,10 +221,12 @@ META = {
     'technique': 'static analysis: kind inference on the loop trip count (EXACTCOUNT), symbolic window formulas (FORMULA), '
                  'loop-body comparison of the 2-D tiling walk against a reference transcription (AGREE), guard on the stacking '
                  'return (SHAPE)',
-    'level': 'Decides from the source that the number of sub-bands is floor((nchans - fchans)/shift) + 1 computed from integers (not '
-             'from accumulated float frequencies), that window i spans fch1 + i*shift*foff .. + fchans*foff with the requested '
-             'leading integrations, that split_fil / the distribution helpers consume every piece once, that the array tiling walk '
-             'advances by the shifts in row-major order, and that tiles are stacked into a regular ndarray only when their shapes '
-             'agree. blimpy\'s frequency -> channel selection is not decided.',
+    'level': 'Decides from the source that the number of sub-bands is floor((nchans - fchans)/shift) + 1 computed from '
+             'integers (not from accumulated float frequencies), that window i spans fch1 + i*shift*foff .. + fchans*foff with'
+             ' the requested leading integrations, that split_fil / the distribution helpers consume every piece once, that '
+             'the array tiling walk advances by the shifts in row-major order, that tiles are stacked into a regular ndarray '
+             'only when their shapes agree and ragged tiles are returned in a container filled tile by tile (np.array(tiles, '
+             'dtype=object) is rejected). A tiling walk whose statements are grouped differently from the reference walk is '
+             "reported UNDECIDED for that comparison. blimpy's frequency -> channel selection is not decided.",
     'note': 'Header values nchans (Int) and fch1/foff (Real) are typed by key; blimpy.Waterfall is opaque.',
 }
